@@ -84,6 +84,19 @@ TCheck == /\ IsEvent("Check")
           /\ "C06" \in Enforce => LET h == CheckHow(Tr[l]) IN Say(h \in {"ok", "wire_not_contract_form", "D_oneof_schema", "D_openapi_nested_flatten", "D_openapi_wkt_as_objects"}, h)
           /\ UNCHANGED <<sl, doc, tv>>
 
+\* C06, parameters: a value a real client put into the URL (path segment, query occurrence) for a field
+\* must be a value of the parameter the document declares under that name and location.  The wire text
+\* is read as the declared type reads it (a number / boolean literal for integer, number, boolean; an
+\* element of the array for a repeated parameter; the text itself for a string) and the instrument
+\* (jsonschema, Draft 2020-12) judges it against the parameter's schema as emitted.
+ParamHow(e) ==
+  IF ~e.declared THEN "parameter_not_declared"
+  ELSE IF \E i \in DOMAIN e.values : e.values[i].instr = "invalid" THEN "sent_value_invalid"
+  ELSE "ok"
+TParam == /\ IsEvent("Param")
+          /\ "C06" \in Enforce => LET h == ParamHow(Tr[l]) IN Say(h = "ok", h)
+          /\ UNCHANGED <<sl, doc, tv>>
+
 \* C19: rule semantics (SebufRules) vs what the emitted constraints accept (instrument verdict)
 TProbe == /\ IsEvent("Probe")
           /\ "C19" \in Enforce => LET h == ProbeHow(Tr[l], Dev) IN Say(h \in {"ok"} \cup Dev, h)
@@ -106,7 +119,7 @@ TMock == /\ IsEvent("Mock")
          /\ "C20" \in Enforce => LET h == MockHow(Tr[l]) IN Say(h = "ok" \/ h \in Dev, h)
          /\ UNCHANGED <<sl, doc, tv>>
 
-TNext == TSchema \/ TDoc \/ TFiles \/ TCheck \/ TProbe \/ TMockBuild \/ TMock
+TNext == TSchema \/ TDoc \/ TFiles \/ TCheck \/ TParam \/ TProbe \/ TMockBuild \/ TMock
 TSpec == TInit /\ [][TNext]_tvars
 HighWater == TLCSet(1, IF l > TLCGet(1) THEN l ELSE TLCGet(1))
 Accepted == TRUE
